@@ -1,6 +1,7 @@
 import DswModel.Tie.GzScore
 import DswModel.Tie.GzViews
 import DswModel.Tie.SpiderwebDefs
+import DswModel.Tie.SwRemoveLib
 /-!
 # DswModel.Tie.SwRemove — `dsw/spiderweb.py` `remove_nasty_arc` : generated code = model
 
@@ -16,6 +17,110 @@ def removeResultPV (r : RemoveResult) : PV :=
   .tup [accPV r.acc, lmapPV r.lmap, .tup [.int (r.former : Int), .int (r.latter : Int)],
         .list (r.scores.map fun (s : Nat) => .int (s : Int))]
 
+namespace SwR
+
+abbrev REnv := Gen.remove_nasty_arc.Env
+
+/-- the tail of the function: the positive scores, the histogram (which only decides whether `IndexError` is raised),
+the returned tuple. -/
+theorem k2_spec (fuel : Nat) (e : REnv) (sc : Array (Array Nat)) (verbose : Bool)
+    (hs : e.scores = scoresPV sc) (hv : e.verbose = .bool verbose) :
+    Gen.remove_nasty_arc.k2 fuel e =
+      if ((sc.toList.flatMap (·.toList)).filter (· > 0)).isEmpty then .error .indexError
+      else .ok (.ret (.tup [e.accessor, e.latter_map, .tup [e.former, e.latter],
+        natsPV ((sc.toList.flatMap (·.toList)).filter (· > 0))])) := by
+  simp only [Gen.remove_nasty_arc.k2, hs, scoresPV_eq, npFlatten_matN, bnd_ok, positive_expr, List.flatMap_def]
+  by_cases hp : ((sc.toList.map Array.toList).flatten.filter (· > 0)) = []
+  · simp only [hp, record_expr_nil, bnd_ok, pyIndex_arr_nil, bnd_error, List.isEmpty_nil, if_true]
+  · obtain ⟨K, c, hrec⟩ := record_expr hp
+    obtain ⟨v, hsort⟩ := sort_expr K c
+    have hne : ((sc.toList.map Array.toList).flatten.filter (· > 0)).isEmpty = false := by
+      simpa [List.isEmpty_iff] using hp
+    simp only [hrec, bnd_ok, hsort, hv, truthy_bool, ite_self, seq_norm, Gen.remove_nasty_arc.k1, hne,
+      Bool.false_eq_true, if_false]
+
+theorem k3_spec (a : Acc) (m : LMap) (k fuel : Nat) (ins del verbose : Bool) (hwf : a.WF) (hsz : a.size = 4 ^ k)
+    (hm : LMap.KeysNodup m) (hk : ∀ p ∈ m, p.1 < 4 ^ k) (e : REnv)
+    (h1 : e.accessor = accPV a) (h2 : e.latter_map = lmapPV m) (h3 : e.observed_length = .int (k : Int))
+    (h4 : e.has_insertion = .bool ins) (h5 : e.has_deletion = .bool del) (h6 : e.verbose = .bool verbose)
+    (h7 : e.nucleotides = .str ['A', 'C', 'G', 'T']) :
+    Gen.remove_nasty_arc.k3 fuel e =
+      match removeNastyArc a m ins del with
+      | .ok r => .ok (.ret (removeResultPV r))
+      | .error err => .error err := by
+  have htie := tie_calculate_intersection_score m k fuel ins del verbose hm hk
+  have hsh := shape_calc m k ins del
+  unfold removeNastyArc
+  simp only [hsz, log4_four_pow]
+  generalize calculateIntersectionScore m k ins del = sc at htie hsh
+  have hpos : 0 < 4 ^ k := Nat.pow_pos (by omega)
+  have hflat : (sc.toList.map Array.toList).flatten ≠ [] := by
+    have h0 : 0 < sc.size := by rw [hsh.1]; exact hpos
+    have hr := hsh.2 0 hpos
+    intro he
+    have hmem : (sc.getD 0 #[]).toList ∈ sc.toList.map Array.toList := by
+      apply List.mem_map_of_mem
+      simp [Array.getD_eq_getD_getElem?, h0]
+    have hnil := List.flatten_eq_nil_iff.mp he _ hmem
+    have := congrArg List.length hnil
+    rw [Array.length_toList, hr] at this; cases this
+  rw [mx_eq]
+  have hint := npIntersect1d_sorted (sorted_obtainVertices a)
+    (rowIdx (· == (sc.toList.map Array.toList).flatten.foldl max 0) (sc.toList.map Array.toList) 0)
+    (fun v => ((List.range sc.size).filter fun v => (sc.getD v #[]).any
+      (· == (sc.toList.map Array.toList).flatten.foldl max 0)).contains v)
+    (fun v _ => rows_iff sc _ v)
+  simp only [Gen.remove_nasty_arc.k3, h1, h2, h3, h4, h5, h6, h7, htie, bnd_ok, vertex_expr sc hflat,
+    tie_obtain_vertices a fuel hwf, hint]
+  cases hF : List.filter (fun v => ((List.range sc.size).filter fun v => (sc.getD v #[]).any
+      (· == (sc.toList.map Array.toList).flatten.foldl max 0)).contains v) (obtainVertices a) with
+  | nil => simp only [idxArrPV, List.map_nil, pyIndex_arr_nil, bnd_error]
+  | cons former rest =>
+    have hmem : former ∈ obtainVertices a :=
+      (List.mem_filter.mp (hF ▸ List.mem_cons_self : former ∈ List.filter _ (obtainVertices a))).1
+    have hfa : former < a.size := GzV.mem_obtainVertices hmem
+    have hfs : former < sc.size := by rw [hsh.1, ← hsz]; exact hfa
+    have hrow4 : (sc.getD former #[]).size = 4 := hsh.2 former (by rw [← hsz]; exact hfa)
+    have hrne : (sc.getD former #[]).toList ≠ [] := by
+      intro he
+      have := congrArg List.length he
+      rw [Array.length_toList, hrow4] at this; cases this
+    have hlv : argmax (sc.getD former #[]).toList < 4 := by
+      have := argmax_lt hrne
+      rwa [Array.length_toList, hrow4] at this
+    have hlv' : argmax (sc.getD former #[]).toList < (a.getD former #[]).size := by
+      rw [(hwf former hfa).1]; exact hlv
+    have hcast : ((former : Int) * 4 + ((argmax (sc.getD former #[]).toList : Nat) : Int)) =
+        ((former * 4 + argmax (sc.getD former #[]).toList : Nat) : Int) := by omega
+    simp only [idxArrPV, List.map_cons, pyIndex_arr_cons_zero, bnd_ok, GzS.pyLen_ACGT4, pyMod_nat_four,
+      pyIndex_scoresPV hfs, npArgmax_nats hrne, npMul_int, npAdd_int, hcast, pyPow_four_nat,
+      pyMod_nat (Nat.ne_of_gt hpos), pyInt_int, GzV.npSetItem2_accPV hfa hlv' (-1)]
+    cases hg : m.get? former with
+    | none => simp only [pyIndex_lmapPV_none hg, bnd_error]
+    | some ls =>
+      simp only [GzV.pyIndex_lmapPV hg, bnd_ok, pyIndexOf_natsPV]
+      by_cases hc : ls.contains ((former * 4 + argmax (sc.getD former #[]).toList) % 4 ^ k) = true
+      · have hidx : ls.idxOf ((former * 4 + argmax (sc.getD former #[]).toList) % 4 ^ k) < ls.length :=
+          List.idxOf_lt_length_of_mem (List.contains_iff_mem.mp hc)
+        simp only [hc, if_true, bnd_ok, pyDelItem_natsPV hidx, pySetItem_lmapPV_old hg,
+          GzV.pyIndex_lmapPV (get?_setFirst hg _), pyLen_natsPV, pyEq_def, eqb_int]
+        have hlen : ∀ l : List Nat, (((l.length : Nat) : Int) == 0) = l.isEmpty := fun l => by cases l <;> rfl
+        rw [erase1_eq hm hg, hlen]
+        by_cases hemp : (ls.eraseIdx (ls.idxOf ((former * 4 + argmax (sc.getD former #[]).toList) % 4 ^ k))).isEmpty = true
+        · simp only [hemp, if_true, pyDelItem_lmapPV (get?_setFirst hg _), delFirst_setFirst, bnd_ok, seq_norm]
+          rw [k2_spec fuel _ sc verbose rfl rfl]
+          by_cases hp : ((sc.toList.flatMap (·.toList)).filter (· > 0)).isEmpty = true
+          · simp only [hp, if_true]
+          · simp only [hp, Bool.false_eq_true, if_false, removeResultPV]; rfl
+        · simp only [hemp, Bool.false_eq_true, if_false, seq_norm]
+          rw [k2_spec fuel _ sc verbose rfl rfl]
+          by_cases hp : ((sc.toList.flatMap (·.toList)).filter (· > 0)).isEmpty = true
+          · simp only [hp, if_true]
+          · simp only [hp, Bool.false_eq_true, if_false, removeResultPV]; rfl
+      · simp only [hc, Bool.false_eq_true, if_false, bnd_error]
+
+end SwR
+
 /-- for every well-formed accessor of order `k`, every latter map with distinct keys below `4^k` (consistent with the
 accessor or not), both flags, any `iteration`, both `verbose` settings: the generated code returns what the model returns,
 and raises what the model raises (`IndexError` when no arc-bearing row holds the maximum or no score is positive,
@@ -24,6 +129,9 @@ theorem tie_remove_nasty_arc (a : Acc) (m : LMap) (k fuel iteration : Nat) (ins 
     (hwf : a.WF) (hsz : a.size = 4 ^ k) (hm : LMap.KeysNodup m) (hk : ∀ p ∈ m, p.1 < 4 ^ k) :
     Gen.remove_nasty_arc fuel (accPV a) (lmapPV m) (.int (iteration : Int)) (.bool ins) (.bool del) (.bool verbose) =
       (removeNastyArc a m ins del).map removeResultPV := by
-  sorry
+  simp only [Gen.remove_nasty_arc, Gen.remove_nasty_arc.body, pyLen_accPV, hsz, bnd_ok, GzS.pyLen_ACGT4,
+    SwR.pyIntLogRatio_four_pow, truthy_bool, pyGt_nat_zero, ite_self, seq_norm]
+  rw [SwR.k3_spec a m k fuel ins del verbose hwf hsz hm hk _ rfl rfl rfl rfl rfl rfl rfl]
+  cases removeNastyArc a m ins del <;> rfl
 
 end Dsw.Tie
